@@ -191,7 +191,7 @@ def _r3(model, res):
             res.violation('R3', '%s:parse_criteria:roles' % m.name, m.where(f),
                           'a criterion predicate must test the item against the criterion (operator(item, number) / fnmatch(item, pattern) / '
                           'item == value); got %s' % why, func='parse_criteria')
-    res.floor('criteria predicate traces', n, 6)
+    res.soft_floor('criteria predicate traces', n, 6)
     for need in ('wildcard', 'operator', 'equality'):
         if need not in kinds and need == 'wildcard':
             verdict, why = _regex_wildcards(model, m, f)
@@ -341,7 +341,7 @@ def _r7(model, res):
         if not ok:
             res.violation('R7', 'function:SLOPE:formula', m.where(f),
                           'SLOPE on three points is not (n*Sxy - Sx*Sy)/(n*Sxx - Sx^2) as an algebraic identity', func=f.name)
-    res.floor('SLOPE value traces', n, 1)
+    res.soft_floor('SLOPE value traces', n, 1)
     # LARGE: n-th largest = sorted ascending, index -n
     m, f = model.registered('LARGE')
     outs = _runs(model, 'LARGE', lambda: [ListV([Sym('int', 'x0'), Sym('int', 'x1'), Sym('int', 'x2')]), Aff(1, 0, 'int', 'n')])
